@@ -285,10 +285,16 @@ type c04XMLAlpha struct {
 	lead  []string // text before the children
 	trail []string // text after the children
 	ns    bool     // the root declares the prefixes p and q (names may then be p:a, q:a ...)
+	// redecl: namespace declarations an element may carry itself ("" = none), e.g. binding a URI that an
+	// outer element bound to another prefix
+	redecl []string
 }
 
 func c04XMLDocs(n, maxDepth int, al c04XMLAlpha, ids bool, visit func(doc string) bool) {
 	per := len(al.names) * len(al.attrs) * len(al.lead) * len(al.trail)
+	if len(al.redecl) > 0 {
+		per *= len(al.redecl)
+	}
 	gen.Shapes(n, maxDepth, func(parent []int) bool {
 		radix := make([]int, n)
 		for i := range radix {
@@ -311,9 +317,13 @@ func c04XMLDocs(n, maxDepth int, al c04XMLAlpha, ids bool, visit func(doc string
 				lead := al.lead[v%len(al.lead)]
 				v /= len(al.lead)
 				trail := al.trail[v%len(al.trail)]
+				v /= len(al.trail)
 				b.WriteString("<" + name)
 				if i == 0 && al.ns {
 					b.WriteString(` xmlns:p="u" xmlns:q="v"`)
+				}
+				if len(al.redecl) > 0 && i > 0 {
+					b.WriteString(al.redecl[v%len(al.redecl)])
 				}
 				if ids {
 					fmt.Fprintf(&b, ` i="%d"`, i)
@@ -436,7 +446,7 @@ func c04SplitXPaths(kind string) (base, ext []c04XPath) {
 		if i%per < nb {
 			base = append(base, x)
 			// the same expression in parentheses and as a branch of a union
-			if i%per < 6 {
+			if i%per < 6 || strings.Contains(x.Pred, `"'"`) || strings.Contains(x.Pred, "]'") {
 				for _, w := range []string{"paren", "union", "union2"} {
 					ext = append(ext, c04XPath{Path: x.Path, Pred: x.Pred, Wrap: w})
 				}
@@ -449,7 +459,7 @@ func c04SplitXPaths(kind string) (base, ext []c04XPath) {
 	// selected by the later branch and contain a node the earlier branch selects, and the other way round
 	var branches []c04XPath
 	for i, x := range all {
-		if i%per < 3 && i/per < 4 {
+		if (i%per < 3 || x.Pred == `[.!="'"]`) && i/per < 4 {
 			branches = append(branches, x)
 		}
 	}
@@ -472,7 +482,7 @@ func init() {
 			"the whole-document tree is loaded by the same reader with target '.', so node construction itself is C08's subject, not C04's",
 			"xpaths are of the property's class: predicates only on the final step and only about the candidate itself",
 		},
-		BudgetQuick: 200, BudgetThorough: 2400,
+		BudgetQuick: 400, BudgetThorough: 2400,
 		Run: func(c *core.Ctx) {
 			full := c04XMLAlpha{names: []string{"a", "b"}, attrs: []string{"", "1"}, lead: []string{"", "1", "2"}, trail: []string{"", " "}}
 			red := c04XMLAlpha{names: []string{"a", "b"}, attrs: []string{"", "1"}, lead: []string{"", "1"}, trail: []string{""}}
@@ -562,6 +572,35 @@ func init() {
 							return true
 						})
 					}
+					if stop {
+						return
+					}
+				}
+			}
+			// elements that bind a URI again which an outer element bound to another prefix (the scope of such a
+			// declaration ends with its element, whether or not the element was delivered as a record)
+			{
+				real := c04XMLAlpha{names: []string{"a", "p:a", "q:a"}, attrs: []string{""}, lead: []string{"", "1"}, trail: []string{""}, ns: true,
+					redecl: []string{"", ` xmlns:q="u"`, ` xmlns:p="v" xmlns:q="u"`}}
+				var nsx []c04XPath
+				for _, pth := range []string{"/a/a", "/a/p:a", "/a/q:a", "/p:a/q:a", "//a", "//p:a", "//q:a", "/*/p:a", "/*/q:a", "/*/*", "//*"} {
+					for _, q := range []string{"", "[.='1']", "[p:a]", "[q:a]", "[not(*)]"} {
+						nsx = append(nsx, c04XPath{Path: pth, Pred: q})
+					}
+				}
+				nmax := 3
+				if !c.Quick() {
+					nmax = 4
+				}
+				for n := 2; n <= nmax; n++ {
+					stop := false
+					c04XMLDocs(n, 4, real, true, func(doc string) bool {
+						if !run("xml", doc, nsx) {
+							stop = true
+							return false
+						}
+						return true
+					})
 					if stop {
 						return
 					}
